@@ -19,6 +19,7 @@ EXPLANATION = ('PAIR-INTEGRITY: in TreeKem::encap the secret key stored at secre
                'LEAF-KEY: encap replaces secret_keys[0] by the key returned from LeafNode::commit; an own update clears the whole '
                'path; a new epoch installs the provisional private tree and clears pending update keys. That stored keys actually '
                'decrypt (HPKE consistency as values) is not decided.')
+EXPLANATION += ' FAIL-ATOMIC (restricted): the private key list is replaced only when nothing can fail any more.'
 ASSUMPTIONS = ['to_hpke_key_pair is a deterministic key derivation: .0 is the private key of .1']
 
 PAIR_RX = r'PathSecret::to_hpke_key_pair\((.*)\)\.0\}$'
